@@ -6,11 +6,17 @@ FAMILIES = set("string".split(","))
 PREFIXES = "_make_string_method|fromCharCode_fn|string_call".split("|")
 
 
+_CANON = []
+
+
 def _in_family(qual: str) -> bool:
+    if _CANON:
+        qual = _CANON[0](qual)
     return any(p in qual for p in PREFIXES)
 
 
 def run(ctx, rep):
+    _CANON[:] = [ctx.facts.canon_qual]
     tables.rule_method_tables(ctx, rep, "C16-R1", FAMILIES, floor=1)
     try:
         from ..rules import implicit
